@@ -453,6 +453,40 @@ class BBWeak(Case):
         ctx.prove("reads-exactly-the-unit", _norm(sum((zint(x[0]) for x in s.log), z3.IntVal(0)) == n))
 
 
+    def native(self, inputs):
+        """The weak-stream obligations are about deliveries, not data: search the (few) short deliveries natively."""
+        import io
+
+        from dissect.cstruct import cstruct
+        from dissect.cstruct.bitbuffer import BitBuffer
+
+        cs = cstruct(endian=self.endian)
+        T = getattr(cs, self.tname)
+        n = T.size
+
+        class Short(io.BytesIO):
+            def __init__(self, data, first):
+                super().__init__(data)
+                self.first = first
+
+            def read(self, k=-1):
+                if self.first is not None:
+                    k, self.first = min(k, self.first), None
+                return super().read(k)
+
+        for k in range(n):
+            for avail in (k, n + 4):
+                s = Short(bytes(range(1, avail + 1)), k)
+                try:
+                    v = BitBuffer(s, self.endian).read(T, 3)
+                except EOFError:
+                    continue
+                except Exception as e:  # noqa: BLE001
+                    return {"reproduced": True, "observed": f"{k} of {n} unit bytes delivered: raises {type(e).__name__} instead of EOFError"}
+                return {"reproduced": True, "observed": f"{k} of {n} unit bytes delivered ({avail} available): read returned {v!r} instead of raising EOFError"}
+        return {"reproduced": False, "observed": "no short delivery accepted natively"}
+
+
 def make_bbweak(tname, endian):
     return BBWeak(tname, endian)
 
